@@ -51,6 +51,18 @@ structure World (K : Type) where
   m1 : OMap K Nat
   as1 : Bool
   slots : List (Option (Slot K))   -- 4 iterator slots
+  /- `_tableSize == 0` (the source of a move construction, `PreallocatedItemSlotsCount(0)`, or swapped with one);
+     such a table is always empty -/
+  zc0 : Bool := false
+  zc1 : Bool := false
+  /- behaviour switches for three findings, probed from the real code by the generator and passed on the `init`
+     line (bit set = the defect is present; 0 = the behaviour the property demands):
+     q1 (R1) a put into a table with no slots fails with B_OUT_OF_MEMORY for ever;
+     q2 (R2) `SwapWithTable` swaps the two values in place without re-positioning the entries;
+     q3 (R3) `Put` on an existing key re-positions the entry although auto-sort is disabled -/
+  q1 : Bool := false
+  q2 : Bool := false
+  q3 : Bool := false
 
 section
 variable {K : Type} [DecidableEq K] (ko : KeyOps K)
@@ -61,8 +73,14 @@ def ltVal : K × Nat → K × Nat → Bool := fun a b => decide (a.2 < b.2)
 def ltOf (kind : Nat) : Option (K × Nat → K × Nat → Bool) :=
   if kind = 1 then some (ltKey ko) else if kind = 2 then some ltVal else none
 
-def World.new (kind : Nat) : World K :=
-  { kind := kind, m0 := [], as0 := true, m1 := [], as1 := true, slots := [none, none, none, none] }
+def World.new (kind : Nat) (quirks : Nat := 0) : World K :=
+  { kind := kind, m0 := [], as0 := true, m1 := [], as1 := true, slots := [none, none, none, none],
+    q1 := quirks % 2 = 1, q2 := (quirks / 2) % 2 = 1, q3 := (quirks / 4) % 2 = 1 }
+
+def World.zc (w : World K) (t : Nat) : Bool := if t = 0 then w.zc0 else w.zc1
+def World.setZc (w : World K) (t : Nat) (b : Bool) : World K := if t = 0 then { w with zc0 := b } else { w with zc1 := b }
+/-- R1 as the code stands: `EnsureTableAllocated` asks for an array of 0 entries and reports out-of-memory -/
+def World.blocked (w : World K) (t : Nat) : Bool := w.q1 && w.zc t
 
 def World.mOf (w : World K) (t : Nat) : OMap K Nat := if t = 0 then w.m0 else w.m1
 
@@ -82,7 +100,7 @@ def scatter (t : Nat) : List (Option (Slot K)) → List (Iter K Nat) → List (O
     else some s :: scatter t r its
 
 def World.tab (w : World K) (t : Nat) : Tab K Nat :=
-  { m := w.mOf t, its := gather t w.slots, autoSort := if t = 0 then w.as0 else w.as1 }
+  { m := w.mOf t, its := gather t w.slots, autoSort := if t = 0 then w.as0 else w.as1, respectFlag := !w.q3 }
 
 def World.setTab (w : World K) (t : Nat) (tb : Tab K Nat) : World K :=
   let sl := scatter t w.slots tb.its
@@ -90,6 +108,10 @@ def World.setTab (w : World K) (t : Nat) (tb : Tab K Nat) : World K :=
   else { w with m1 := tb.m, as1 := tb.autoSort, slots := sl }
 
 def World.upd (w : World K) (t : Nat) (f : Tab K Nat → Tab K Nat) : World K := w.setTab t (f (w.tab t))
+
+/-- a put-family call on table `t`: fails without effect on a table with no slots (R1), else allocates -/
+def World.putOp (w : World K) (t : Nat) (f : Tab K Nat → Tab K Nat) (ok fail : String) : World K × String :=
+  if w.blocked t then (w, fail) else ((w.upd t f).setZc t false, ok)
 
 def kv (p : K × Nat) : String := ko.render p.1 ++ ":" ++ toString p.2
 
@@ -195,26 +217,26 @@ def setSlot (w : World K) (i : Nat) (s : Option (Slot K)) : World K := { w with 
 def step (w : World K) (toks : List String) : World K × String :=
   let lt? := ltOf ko w.kind
   match toks with
-  | ["put", t, k, v] => withKV ko w t k v fun t k v => (w.upd t (·.putAux lt? k v), "ok")
+  | ["put", t, k, v] => withKV ko w t k v fun t k v => w.putOp t (·.putAux lt? k v) "ok" "err"
   | ["putp", t, k, v] => withKV ko w t k v fun t k v =>
-      (w.upd t (·.putAux lt? k v), match get (w.mOf t) k with | some o => "ok old=" ++ toString o | none => "ok new")
-  | ["putd", t, k] => withK ko w t k fun t k => (w.upd t (·.putAux lt? k 0), "ok")
-  | ["pag", t, k, v] => withKV ko w t k v fun t k v => (w.upd t (·.putAux lt? k v), "ok " ++ toString v)
+      w.putOp t (·.putAux lt? k v) (match get (w.mOf t) k with | some o => "ok old=" ++ toString o | none => "ok new") "err new"
+  | ["putd", t, k] => withK ko w t k fun t k => w.putOp t (·.putAux lt? k 0) "ok" "err"
+  | ["pag", t, k, v] => withKV ko w t k v fun t k v => w.putOp t (·.putAux lt? k v) ("ok " ++ toString v) "err"
   | ["gop", t, k, v] => withKV ko w t k v fun t k v =>
       match get (w.mOf t) k with
       | some o => (w, "ok " ++ toString o)          -- `GetOrPut`: an existing entry is returned untouched
-      | none => (w.upd t (·.putAux lt? k v), "ok " ++ toString v)
+      | none => w.putOp t (·.putAux lt? k v) ("ok " ++ toString v) "err"
   | ["pinp", t, k, v] => withKV ko w t k v fun t k v =>
-      if has (w.mOf t) k then (w, "null") else (w.upd t (·.putAux lt? k v), "ok " ++ toString v)
+      if has (w.mOf t) k then (w, "null") else w.putOp t (·.putAux lt? k v) ("ok " ++ toString v) "null"
   | ["por", t, k, v] => withKV ko w t k v fun t k v =>
-      if v = 0 then (w.upd t (·.removeKey k), "ok") else (w.upd t (·.putAux lt? k v), "ok")
-  | ["pfront", t, k, v] => withKV ko w t k v fun t k v => (w.upd t (·.putAtFront lt? k v), "ok")
-  | ["pback", t, k, v] => withKV ko w t k v fun t k v => (w.upd t (·.putAtBack lt? k v), "ok")
-  | ["pbefore", t, k, k2, v] => withKKV ko w t k k2 v fun t k k2 v => (w.upd t (·.putBefore lt? k k2 v), "ok")
-  | ["pbehind", t, k, k2, v] => withKKV ko w t k k2 v fun t k k2 v => (w.upd t (·.putBehind lt? k k2 v), "ok")
+      if v = 0 then (w.upd t (·.removeKey k), "ok") else w.putOp t (·.putAux lt? k v) "ok" "err"
+  | ["pfront", t, k, v] => withKV ko w t k v fun t k v => w.putOp t (·.putAtFront lt? k v) "ok" "err"
+  | ["pback", t, k, v] => withKV ko w t k v fun t k v => w.putOp t (·.putAtBack lt? k v) "ok" "err"
+  | ["pbefore", t, k, k2, v] => withKKV ko w t k k2 v fun t k k2 v => w.putOp t (·.putBefore lt? k k2 v) "ok" "err"
+  | ["pbehind", t, k, k2, v] => withKKV ko w t k k2 v fun t k k2 v => w.putOp t (·.putBehind lt? k k2 v) "ok" "err"
   | ["ppos", t, k, p, v] =>
       match u32? p with
-      | some p => withKV ko w t k v fun t k v => (w.upd t (·.putAtPosition lt? k p v), "ok")
+      | some p => withKV ko w t k v fun t k v => w.putOp t (·.putAtPosition lt? k p v) "ok" "err"
       | none => (w, "bad-op")
   | ["get", t, k] => withK ko w t k fun t k => (w, optV (get (w.mOf t) k))
   | ["getd", t, k] => withK ko w t k fun t k => (w, toString ((get (w.mOf t) k).getD 0))
@@ -276,7 +298,7 @@ def step (w : World K) (toks : List String) : World K × String :=
       (w.upd t (·.intersect o), toString ((keys (w.mOf t)).filter (fun k => !has o k)).length)
   | ["clear", t, r] => withT w t fun t =>
       match bool? r with
-      | some _ => (w.upd t (·.clear), "ok")
+      | some r => ((w.upd t (·.clear)).setZc t (w.zc t && !r), "ok")   -- `Clear(true)` goes back to the default capacity
       | none => (w, "bad-op")
   | ["mfront", t, k] => withK ko w t k fun t k =>
       if has (w.mOf t) k then (w.upd t (·.moveFrontAux k), "ok") else (w, "err")
@@ -316,32 +338,77 @@ def step (w : World K) (toks : List String) : World K × String :=
       | none => (w, "bad-op")
   | ["ensure", t, n, s] => withT w t fun t =>
       match u32? n, bool? s with
-      | some n, some _ => if n = 4294967295 then (w, "err") else if n ≤ 1000000 then (w, "ok") else (w, "bad-op")
+      | some n, some _ =>
+        if n = 4294967295 then (w, "err")
+        else if n ≤ 1000000 then (w.setZc t (w.zc t && n = 0), "ok")   -- a table without slots stays so only for `EnsureSize(0)`
+        else (w, "bad-op")
       | _, _ => (w, "bad-op")
-  | ["shrink", t, n] => withT w t fun _ =>
+  | ["shrink", t, n] => withT w t fun t =>
       match u32? n with
-      | some n => if n ≤ 1000000 then (w, "ok") else (w, "bad-op")
+      | some n => if n ≤ 1000000 then (w.setZc t (w.zc t && n = 0), "ok") else (w, "bad-op")
       | none => (w, "bad-op")
-  | ["copy", t] => withT w t fun t => (w.upd t (·.copyFrom lt? (w.mOf (1 - t)) true), "ok")
-  | ["putall", t] => withT w t fun t => (w.upd t (·.copyFrom lt? (w.mOf (1 - t)) false), "ok")
+  | ["ecp", t, n] => withT w t fun t =>        -- `EnsureCanPut(n)`
+      match u32? n with
+      | some n =>
+        if n = 4294967295 then (w, "err")      -- overflows `GetNumItems()+n`, or asks for MUSCLE_NO_LIMIT slots
+        else if n ≤ 1000000 then (w.setZc t (w.zc t && n = 0), "ok")
+        else (w, "bad-op")
+      | none => (w, "bad-op")
+  | ["copy", t] => withT w t fun t =>       -- `CopyFrom` calls `EnsureSize(n)` first when the source has items
+      ((w.upd t (·.copyFrom lt? (w.mOf (1 - t)) true)).setZc t (w.zc t && (w.mOf (1 - t)).isEmpty), "ok")
+  | ["putall", t] => withT w t fun t =>
+      ((w.upd t (·.copyFrom lt? (w.mOf (1 - t)) false)).setZc t (w.zc t && (w.mOf (1 - t)).isEmpty), "ok")
   | ["cctor", t] => withT w t fun t =>
       (w, dumpStr ko ((Tab.empty : Tab K Nat).copyFrom lt? (w.mOf t) true).m)
   | ["swap"] =>
-      ({ w with m0 := w.m1, m1 := w.m0,
+      ({ w with m0 := w.m1, m1 := w.m0, zc0 := w.zc1, zc1 := w.zc0,
                 slots := w.slots.map (fun s => s.map (fun s => { s with owner := 1 - s.owner })) }, "ok")
+  | ["massign", t] => withT w t fun _ =>      -- `a = std::move(b)` is `a.SwapContents(b)`
+      ({ w with m0 := w.m1, m1 := w.m0, zc0 := w.zc1, zc1 := w.zc0,
+                slots := w.slots.map (fun s => s.map (fun s => { s with owner := 1 - s.owner })) }, "ok")
+  | ["movector", t] => withT w t fun t =>
+      -- table `1-t` is replaced by `new Table(std::move(table t))`: the new object (auto-sort on) takes t's array,
+      -- entries and iterators; t is left with no slots; the old `1-t` is destroyed (its iterators detach)
+      let w1 := w.upd (1 - t) (fun tb => { tb.clear with autoSort := true })
+      let sl := w1.slots.map (fun s => s.map (fun s => if s.owner = t then { s with owner := 1 - t } else
+                  { s with owner := 2 }))      -- owner 2 = no table: detached iterators (cur = none) never look at one
+      let w2 := if t = 0 then { w1 with m1 := w1.m0, m0 := [], zc1 := w1.zc0, zc0 := true, slots := sl }
+                else { w1 with m0 := w1.m1, m1 := [], zc0 := w1.zc1, zc1 := true, slots := sl }
+      (w2, "ok")
+  | ["mkpre", t, n] => withT w t fun t =>     -- table t := new Table(PreallocatedItemSlotsCount(n))
+      match u32? n with
+      | some n =>
+        if n ≤ 1000000 then ((w.upd t (fun tb => { tb.clear with autoSort := true })).setZc t (n = 0), "ok") else (w, "bad-op")
+      | none => (w, "bad-op")
+  | ["setv", t, k, v] => withKV ko w t k v fun t k v =>     -- `*t.Get(k) = v`: in-place update, nothing re-positioned
+      if has (w.mOf t) k then (w.upd t (fun tb => { tb with m := setVal tb.m k v }), "ok") else (w, "none")
+  | ["swt", t, k] => withK ko w t k fun t k =>              -- `SwapWithTable(k, other)`
+      let o := 1 - t
+      match get (w.mOf t) k, get (w.mOf o) k with
+      | none, none => (w, "err")
+      | some a, some b =>
+        if w.q2 then
+          (((w.upd t (fun tb => { tb with m := setVal tb.m k b })).upd o (fun tb => { tb with m := setVal tb.m k a })), "ok")
+        else (((w.upd t (·.putAux lt? k b)).upd o (·.putAux lt? k a)), "ok")
+      | some a, none =>
+        if w.blocked o then (w, "err") else ((((w.upd o (·.putAux lt? k a)).setZc o false).upd t (·.removeKey k)), "ok")
+      | none, some b =>
+        if w.blocked t then (w, "err") else ((((w.upd t (·.putAux lt? k b)).setZc t false).upd o (·.removeKey k)), "ok")
   | ["eq", o] =>
       match bool? o with
       | some o => (w, toString (isEqualTo w.m0 w.m1 o))
       | none => (w, "bad-op")
   | ["mtt", t, k] => withK ko w t k fun t k =>
       match get (w.mOf t) k with
-      | some v => (((w.upd (1 - t) (·.putAux lt? k v)).upd t (·.removeKey k)), "ok")
+      | some v =>
+        if w.blocked (1 - t) then (w, "err")
+        else ((((w.upd (1 - t) (·.putAux lt? k v)).setZc (1 - t) false).upd t (·.removeKey k)), "ok")
       | none => (w, "err")
   | ["ctt", t, k] => withK ko w t k fun t k =>
       match get (w.mOf t) k with
-      | some v => (w.upd (1 - t) (·.putAux lt? k v), "ok")
+      | some v => if w.blocked (1 - t) then (w, "err") else ((w.upd (1 - t) (·.putAux lt? k v)).setZc (1 - t) false, "ok")
       | none => (w, "err")
-  | ["destroy", t] => withT w t fun t => (w.upd t (fun tb => { tb.clear with autoSort := true }), "ok")
+  | ["destroy", t] => withT w t fun t => ((w.upd t (fun tb => { tb.clear with autoSort := true })).setZc t false, "ok")
   | ["n", t] => withT w t fun t => (w, toString (w.mOf t).length)
   | ["dump", t] => withT w t fun t => (w, dumpStr ko (w.mOf t))
   | ["itnew", i, t, b] =>
@@ -416,6 +483,12 @@ def stepSt (st : St) (toks : List String) : St × String :=
     | some k, some _ =>
       if kt = "u" then (.u (World.new k), "ok") else if kt = "s" then (.s (World.new k), "ok") else (st, "bad-op")
     | _, _ => (st, "bad-op")
+  | ["init", k, kt, hm, q] =>
+    match kind? k, nat? hm, nat? q with
+    | some k, some _, some q =>
+      if q ≥ 8 then (st, "bad-op")
+      else if kt = "u" then (.u (World.new k q), "ok") else if kt = "s" then (.s (World.new k q), "ok") else (st, "bad-op")
+    | _, _, _ => (st, "bad-op")
   | _ =>
     match st with
     | .none => (st, "noinit")
